@@ -519,6 +519,62 @@ func (f *Frame) backEdge(li *loopInfo, from *ssa.BasicBlock, cond string) {
 	}
 }
 
+// exitEdge: control leaves one or more loops along from -> to. The loop's
+// exit_ensures clauses are obligations on the edges that leave it from the
+// evaluation of its condition (the condition has become false), its break_ensures clauses on the
+// edges that leave it from any other of its blocks (break, goto, the way to a
+// return). Plain names and heap reads denote the state at the edge, old(...)
+// the state at the loop head of the iteration under way.
+func (f *Frame) exitEdge(from, to *ssa.BasicBlock, cond string) {
+	var ls []*loopInfo
+	for _, li := range f.loops {
+		if li.spec != nil && li.headState != nil && li.body[from] && !li.body[to] && len(li.spec.ExitEns)+len(li.spec.BreakEns) > 0 {
+			ls = append(ls, li)
+		}
+	}
+	sort.Slice(ls, func(i, j int) bool { return ls[i].n < ls[j].n })
+	for _, li := range ls {
+		cls, kind := li.spec.BreakEns, "break"
+		if condBlock(li, from) {
+			cls, kind = li.spec.ExitEns, "exit"
+		}
+		for i, c := range cls {
+			t := f.bodyRetExpr(li, c, from, nil)
+			li.addPending(fmt.Sprintf("loop%d/%s", li.n, clauseName(c, kind, i)), "loop-"+kind, Imp(cond, t), c.Text)
+		}
+	}
+}
+
+// condBlock: b belongs to the evaluation of the loop condition -- the head, or
+// a block reached from such a block only (the right operand of && and ||) that
+// computes values and does nothing else.
+func condBlock(li *loopInfo, b *ssa.BasicBlock) bool {
+	for depth := 0; depth < 16; depth++ {
+		if b == li.head {
+			return true
+		}
+		if len(b.Preds) != 1 || !li.body[b.Preds[0]] {
+			return false
+		}
+		for _, in := range b.Instrs {
+			switch x := in.(type) {
+			case *ssa.BinOp, *ssa.UnOp, *ssa.Phi, *ssa.DebugRef, *ssa.If, *ssa.FieldAddr, *ssa.Field, *ssa.Convert, *ssa.ChangeType:
+			case *ssa.Call:
+				if _, builtin := x.Call.Value.(*ssa.Builtin); !builtin {
+					return false
+				}
+			default:
+				return false
+			}
+		}
+		if _, isIf := b.Instrs[len(b.Instrs)-1].(*ssa.If); !isIf {
+			return false
+		}
+		b = b.Preds[0]
+	}
+	return false
+}
+
 // condFrameKey: state keys a conditional frame (unchanged_unless) speaks about.
 func condFrameKey(k string) bool {
 	return !(strings.HasPrefix(k, "L:") || strings.HasPrefix(k, "it:") || strings.HasPrefix(k, "lock:") || strings.HasPrefix(k, "ghost:"))
